@@ -111,7 +111,7 @@ func weighted(r *rand.Rand, names []string, weights []int) string {
 func randVariant(r *rand.Rand, okBias int) (string, int) {
 	n := 1 + r.IntN(9)
 	if r.IntN(100) < okBias {
-		return weighted(r, []string{"ok", "ok_rich", "ok_multi", "ok_badset", "ok_cycleset", "noinj", "testonly", "ok_unsafeptr", "ok_generic2", "ok_setalias"}, []int{26, 20, 16, 7, 6, 8, 5, 4, 4, 4}), n
+		return weighted(r, []string{"ok", "ok_rich", "ok_multi", "ok_badset", "ok_cycleset", "noinj", "testonly", "ok_unsafeptr", "ok_generic2", "ok_setalias", "ok_structconv"}, []int{26, 20, 16, 7, 6, 8, 5, 4, 4, 4, 4}), n
 	}
 	var bad []string
 	for _, v := range Variants {
